@@ -263,6 +263,25 @@ def gen_case(rng, nvars=None, max_dom=3, shapes=SHAPES, palettes=("ties", "disti
     return case
 
 
+def mix_domain_types(rng, case, p=0.8):
+    """domains mixing value types ('off', 1, 2.5, True ...), distinct by equality; costs / tables keep their positions"""
+    for v in case["variables"]:
+        if rng.random() < p:
+            pool_ = ["off", "on", "a", 1, 2, 3, 0, 2.5, True]
+            k = len(v["domain"])
+            dom = []
+            for x in rng.sample(pool_, len(pool_)):
+                if not any(x == y for y in dom):  # 1 == True
+                    dom.append(x)
+                if len(dom) == k:
+                    break
+            v["domain"] = dom
+            if v.get("initial") is not None:
+                v["initial"] = rng.choice(dom)
+    case["mixed_type_domains"] = True
+    return case
+
+
 def case_sig(case):
     from pv.common import stable_hash
 
